@@ -32,6 +32,8 @@ inductive SeqOp (α : Type) where
   | swap (r q : Nat)                            -- r.swap(q)
   | setAt (r i : Nat) (x : α)                   -- r[i] = x
   | obs (r : Nat)                               -- to_string(r) / size() / iteration: an observation, changes nothing
+  | moveS (r q : Nat)                           -- r = std::move(q); q = string{}   (nothing when r = q)
+  | obsNone (r : Nat)                           -- r = r (self-assignment): changes nothing
 deriving Repr
 
 abbrev Regs (α : Type) := Nat → List α
@@ -56,6 +58,8 @@ def SeqOp.apply {α} (g : Regs α) : SeqOp α → Regs α
   | .swap r q => (g.put r (g q)).put q (g r)
   | .setAt r i x => if i < (g r).length then g.put r ((g r).set i x) else g
   | .obs _ => g
+  | .moveS r q => if r = q then g else (g.put r (g q)).put q []
+  | .obsNone _ => g
 
 def SeqOp.run {α} (g : Regs α) (ops : List (SeqOp α)) : Regs α := ops.foldl SeqOp.apply g
 
@@ -73,6 +77,8 @@ def SeqOp.map {α β} (f : α → β) : SeqOp α → SeqOp β
   | .swap r q => .swap r q
   | .setAt r i x => .setAt r i (f x)
   | .obs r => .obs r
+  | .moveS r q => .moveS r q
+  | .obsNone r => .obsNone r
 
 def Regs.map {α β} (f : α → β) (g : Regs α) : Regs β := fun r => (g r).map f
 
